@@ -244,6 +244,13 @@ def predicates(case, impl):
         return out
     if impl.get("history"):
         case = impl["last"]
+    if impl["bounds"].get("finite") is False:
+        # not a question of the stability range: whatever is reported must be finite
+        nf = impl.get("nonfinite") or {}
+        site = "_run_2D" if case["dim"] == "spatial_2D" else "_run_1D"
+        return [Failure(clause="finite", key=f"finite|{site}|{case['config']}",
+                        detail=f"{nf.get('count')} reported temperatures / ice fractions are not finite (first reported "
+                               f"row {nf.get('first_row')})")]
     if not in_stab(case):
         return out
     b = impl["bounds"]
